@@ -18,6 +18,22 @@ pub fn explore<T>(
     st
 }
 
+/// `rayon::verif::explore_from` (deviations only from decision `branch_from` on)
+pub fn explore_from<T>(
+    cfg: &Config,
+    bound: Option<u32>,
+    max_executions: u64,
+    branch_from: usize,
+    f: impl FnMut() -> T,
+    on_exec: impl FnMut(std::thread::Result<T>, &Trace) -> bool,
+) -> ExploreStats {
+    vcore::run::pin_current_thread_once();
+    let prev = vcore::run::IN_EXPLORER.with(|e| e.replace(true));
+    let st = rayon::verif::explore_from(cfg, bound, max_executions, branch_from, f, on_exec);
+    vcore::run::IN_EXPLORER.with(|e| e.set(prev));
+    st
+}
+
 pub fn run_scheduled<T>(cfg: &Config, prefix: &[u32], f: impl FnOnce() -> T) -> (std::thread::Result<T>, Trace) {
     vcore::run::pin_current_thread_once();
     let prev = vcore::run::IN_EXPLORER.with(|e| e.replace(true));
